@@ -557,8 +557,11 @@ func (m *Manager) resetGroupEarlierUsage(gt *GroupTracker, queuePath string) {
 			zap.Strings("queue path", hierarchy))
 		appUsersMap := gt.decreaseAllTrackedResourceUsage(hierarchy)
 		for app, u := range appUsersMap {
-			ut := m.userTrackers[u]
-			delete(ut.appGroupTrackers, app)
+			// the user tracker can be gone already: the group keeps listing an application whose user
+			// removed it after an earlier reload had dropped the link between the two
+			if ut, ok := m.userTrackers[u]; ok {
+				delete(ut.appGroupTrackers, app)
+			}
 		}
 		gt.clearLimits(queuePath)
 		// Is there any running applications in end queue of this queue path? If not, then remove the linkage between end queue and its immediate parent
